@@ -277,29 +277,31 @@ theorem rs_evalStep (e : Expr) : Pres (RS P) (evalStep C r e) := by
     · split <;> first | exact NN H (neutral_pure _) | exact NN H (neutral_fail _)
     · exact NN H (neutral_fail _)
   | call k name args =>
-    unfold evalStep
-    apply pres_bind (rs_po H) (rs_evalArgs H K COk he hs args); intro kw
     cases k with
     | function =>
-      simp only
+      simp only [evalStep]
+      apply pres_bind (rs_po H) (rs_evalArgs H K COk he hs args); intro kw
       split
       · rename_i f hf
         exact rs_invoke H K COk he hs _ _ _ _ (COk f (mem_of_findCallable hf))
       · exact NN H (neutral_fail _)
     | implicit ns =>
-      simp only
+      simp only [evalStep]
+      apply pres_bind (rs_po H) (rs_evalArgs H K COk he hs args); intro kw
       split
       · rename_i f hf
         split <;> exact rs_invoke H K COk he hs _ _ _ _ (COk f (mem_of_resolveNs hf))
       · exact NN H (neutral_fail _)
     | classOp ns =>
-      simp only
+      simp only [evalStep]
       split
       · rename_i f hf
-        split <;> exact rs_invoke H K COk he hs _ _ _ _ (COk f (mem_of_resolveNs hf))
+        apply pres_bind (rs_po H) (rs_evalArgs H K COk he hs args); intro kw
+        exact rs_invoke H K COk he hs _ _ _ _ (COk f (mem_of_findCallable hf))
       · exact NN H (neutral_fail _)
     | bridge ns =>
-      simp only
+      simp only [evalStep]
+      apply pres_bind (rs_po H) (rs_evalArgs H K COk he hs args); intro kw
       split
       · rename_i f hf
         split <;> exact rs_invoke H K COk he hs _ _ _ _ (COk f (mem_of_resolveNs hf))
